@@ -134,6 +134,9 @@ func (obj *SparseFloat64Vector) SET(x *SparseFloat64Vector) {
   }
 }
 func (obj *SparseFloat64Vector) SLICE(i, j int) *SparseFloat64Vector {
+  if i < 0 || j < i || j > obj.n {
+    panic("index out of bounds")
+  }
   r := nilSparseFloat64Vector(j-i)
   for it := obj.indexIteratorFrom(i); it.Ok(); it.Next() {
     if it.Get() >= j {
